@@ -142,8 +142,12 @@ def oracle_stream(c, o, complete, what):
                 return '%s returned a message without consuming any input' % what
             buf = buf[len(buf) - rem:]
         elif e[0] == 1:
+            rem = e[1]
+            if complete(buf) and rem >= len(buf):
+                return '%s asked for more bytes although a complete frame is buffered and nothing was consumed (stall)' % what
+            buf = buf[len(buf) - rem:] if rem else []
             if complete(buf):
-                return '%s asked for more bytes although a complete frame is buffered (stall)' % what
+                return '%s asked for more bytes although what it left in the buffer starts with a complete frame (stall)' % what
             new_chunk = True
         elif e[0] == 2:
             return None
@@ -674,7 +678,7 @@ class Prop:
                          'rtr_need_only_if_incomplete', 'rtr_fragmentation_invariant',
                          'bgp_parse_no_panic_partial', 'bgp_parse_consumes_partial',
                          'bgp_complete_frame_decided_partial', 'bgp_need_only_if_incomplete_partial',
-                         'bgp_fragmentation_invariant_partial']
+                         'bgp_fragmentation_invariant_partial', 'bgp_errors_are_notifications_partial']
     correspondence_name = ('Model/Bfd.v bfd_decode vs packet/src/bfd.rs Message::decode; Model/Rtr.v rtr_decode vs packet/src/rpki.rs '
                            'RtrCodec::decode; Model/Wire*.v try_parse vs packet/src/bgp.rs PeerCodec::try_parse/parse_message (with vpn.rs, '
                            'labeled.rs, mpls.rs, rd.rs); each driven chunk by chunk as run_select / FramedRead do '
